@@ -13,6 +13,7 @@ from vf.simk.world import World
 
 ID = "C19"
 LEVEL = "exploration"
+ALT_MOUNT = True          # run once more with procfs mounted at /hostproc (vf/child.py)
 STATES = ("ok", "missing", "unreadable", "garbage")
 UNL, UNK = "POWER_TIME_UNLIMITED", "POWER_TIME_UNKNOWN"
 
